@@ -83,6 +83,7 @@ TABLE = {
     "_cleanup_run_folder": "Effect",
     "_check_inputs": "Check",
     "_construct_internal_shapes": "Pure",
+    "_normalize_storage_keys": "Pure",              # dict comprehension: a 1-tuple key becomes the bare name
     "map_shapes": "Check",
     # RunInfo.__post_init__
     "self.dump": "Effect",
@@ -123,6 +124,7 @@ PATCH = {
     "_cleanup_run_folder": ("pipefunc.map._run_info", "_cleanup_run_folder"),
     "_check_inputs": ("pipefunc.map._run_info", "_check_inputs"),
     "_construct_internal_shapes": ("pipefunc.map._run_info", "_construct_internal_shapes"),
+    "_normalize_storage_keys": ("pipefunc.map._run_info", "_normalize_storage_keys"),
     "map_shapes": ("pipefunc.map._run_info", "map_shapes"),
     "self.dump": ("pipefunc.map._run_info", "RunInfo.dump"),
     "dump": ("pipefunc.map._run_info", "dump"),
